@@ -64,6 +64,11 @@ type (
 		// closing the store marks them closed, which is what stops a start function that does not return.
 		starting map[*ModuleInstance]struct{} // guarded by mux
 
+		// closed and closedExitCode record CloseWithExitCode for the instances whose start function begins
+		// after it.
+		closed         bool   // guarded by mux
+		closedExitCode uint32 // guarded by mux
+
 		// mux is used to guard the fields from concurrent access.
 		mux sync.RWMutex
 	}
@@ -495,6 +500,11 @@ func (s *Store) setStarting(m *ModuleInstance, running bool) {
 	s.mux.Lock()
 	defer s.mux.Unlock()
 	if running {
+		if s.closed {
+			// The store was closed before this start function began: nobody will mark it later.
+			m.setExitCode(s.closedExitCode, exitCodeFlagResourceNotClosed)
+			return
+		}
 		if s.starting == nil {
 			s.starting = map[*ModuleInstance]struct{}{}
 		}
@@ -778,6 +788,7 @@ func (s *Store) CloseWithExitCode(ctx context.Context, exitCode uint32) error {
 	for m := range s.starting {
 		m.setExitCode(exitCode, exitCodeFlagResourceNotClosed)
 	}
+	s.closed, s.closedExitCode = true, exitCode
 	// Close modules in reverse initialization order.
 	var errs []error
 	for m := s.moduleList; m != nil; m = m.next {
